@@ -424,3 +424,857 @@ Proof.
       * apply Hdis. apply (in_keys_hole p a l1 te l2 k). right. right. left. exact Hk0.
   - apply w_unlink_rootlink.
 Qed.
+
+(* ---- attaching an orphan subtree under an entity of the tree (creation, second half of a move) ---- *)
+Lemma rep_attach C q a l te f P0 P' :
+  Rep (plug C (Node q a l)) f P0 ->
+  NoDup (keys_of te) ->
+  (forall r, In r (rows te) -> node_matches (flat f) r) ->
+  (forall k, In k (keys_of te) -> In k P0) ->
+  (forall k, In k P0 -> In k P' \/ In k (keys_of te)) ->
+  (forall k, In k P' -> In k P0 /\ ~ In k (keys_of te)) ->
+  Rep (plug C (Node q a (l ++ [te]))) (w_link q (tkey te) f) P'.
+Proof.
+  intros R Hte Hrte Hsub Hcov Hnew.
+  destruct (rep_hole_facts _ _ _ _ R) as [Hnd [Hdis [Hrows Hpend]]].
+  assert (Hql : ~ In q (flat_map keys_of l)) by (rewrite keys_of_eq in Hnd; inversion Hnd; assumption).
+  assert (Hfresh : forall k, In k (keys_of te) -> ~ In k (keys_of (Node q a l)) /\ ~ In k (ctx_keys C)).
+  { intros k Hk. apply Hpend. apply Hsub. exact Hk. }
+  destruct (Hrows (q, a, map tkey l)) as [qn [Hg [Ha [Hlnd [Hk Hl]]]]]; [rewrite rows_eq; left; reflexivity|].
+  unfold rkey, rattrs, rkids in Hg, Ha, Hlnd, Hk, Hl. simpl in Hg, Ha, Hlnd, Hk, Hl.
+  destruct (Hrte (tkey te, tattrs te, map tkey (tkids te))) as [en [Hge _]].
+  { destruct te as [k' a' l']. rewrite rows_eq. left. reflexivity. }
+  unfold rkey in Hge. simpl in Hge.
+  assert (Heq : tkey te <> q).
+  { intros E. apply (proj1 (Hfresh (tkey te) (tkey_in_keys te))). rewrite E. left. reflexivity. }
+  assert (Hlg : lget (tkey te) (flinks qn) = None).
+  { apply lget_None_notin. intros Hin. apply Hk in Hin.
+    apply (proj1 (Hfresh (tkey te) (tkey_in_keys te))). right. apply tkeys_sub. exact Hin. }
+  pose proof (w_link_new q (tkey te) f qn en Hg Hge Hlg) as Hg'.
+  assert (Hfr : forall y, y <> q -> fget y (flat (w_link q (tkey te) f)) = fget y (flat f)).
+  { intros y Hy. apply w_link_frame. exact Hy. }
+  apply rep_replace with (s := Node q a l) (f := f) (P := P0).
+  - exact R.
+  - reflexivity.
+  - rewrite keys_of_eq, flat_map_app. simpl. rewrite app_nil_r. constructor.
+    + intros Hin. apply in_app_or in Hin. destruct Hin as [Hin|Hin]; [exact (Hql Hin)|].
+      apply (proj1 (Hfresh q Hin)). left. reflexivity.
+    + apply nodup_app_iff. repeat split.
+      * rewrite keys_of_eq in Hnd. inversion Hnd; assumption.
+      * exact Hte.
+      * intros x Hx Hx2. apply (proj1 (Hfresh x Hx2)). right. exact Hx.
+  - intros x Hx. rewrite keys_of_eq, flat_map_app in Hx. simpl in Hx. rewrite app_nil_r in Hx.
+    destruct Hx as [<-|Hx]; [apply Hdis; left; reflexivity|].
+    apply in_app_or in Hx. destruct Hx as [Hx|Hx]; [apply Hdis; right; exact Hx | apply Hfresh; exact Hx].
+  - apply w_link_nodup. exact (rep_flatnd _ _ _ R).
+  - intros r Hr. rewrite rows_eq, flat_map_app in Hr. simpl in Hr. rewrite app_nil_r in Hr.
+    destruct Hr as [<-|Hr].
+    + eexists. unfold rkey, rattrs, rkids. simpl. split; [exact Hg'|]. simpl.
+      split; [exact Ha|]. rewrite map_app. simpl. split.
+      { apply nodup_app_iff. repeat split; [exact Hlnd | constructor; [intros [] | constructor] |].
+        intros x Hx [<-|[]]. apply lget_None_notin in Hlg. exact (Hlg Hx). }
+      split.
+      * intros c. rewrite map_app, !in_app_iff. simpl. rewrite Hk. tauto.
+      * intros c ad Hin. apply in_app_or in Hin. destruct Hin as [Hin|[Hin|[]]].
+        -- destruct (Hl c ad Hin) as [cn [Hc Hcad]]. exists cn. split; [|exact Hcad].
+           rewrite Hfr; [exact Hc|]. intros ->. apply Hql. apply tkeys_sub. apply Hk.
+           apply in_map_iff. exists (q, ad). split; [reflexivity | exact Hin].
+        -- inversion Hin; subst. exists en. split; [|reflexivity]. rewrite Hfr by exact Heq. exact Hge.
+    + apply in_app_or in Hr. destruct Hr as [Hr|Hr].
+      * apply node_matches_same with (m := flat f).
+        -- apply Hrows. rewrite rows_eq. right. exact Hr.
+        -- apply Hfr. intros E. apply Hql. rewrite <- E. apply rows_list_keys. exact Hr.
+        -- intros c Hc. apply Hfr. intros ->. apply Hql. eapply rows_list_kids; eassumption.
+      * apply node_matches_same with (m := flat f).
+        -- apply Hrte. exact Hr.
+        -- apply Hfr. intros E.
+           assert (Hq : In q (keys_of te)) by (rewrite <- E; apply rows_keys; exact Hr).
+           apply (proj1 (Hfresh q Hq)). left. reflexivity.
+        -- intros c Hc. apply Hfr. intros ->.
+           assert (Hq : In q (keys_of te)) by (eapply rows_kids_keys; eassumption).
+           apply (proj1 (Hfresh q Hq)). left. reflexivity.
+  - intros y Hy. apply Hfr. intros ->. apply (Hdis q); [left; reflexivity | exact Hy].
+  - intros cn Hc. simpl in Hc. rewrite Hg in Hc. inversion Hc; subst cn. eexists. split; [exact Hg' | reflexivity].
+  - intros k n0 Hk0. destruct (key_dec k q) as [->|Hne]; [left; left; reflexivity|].
+    rewrite Hfr in Hk0 by exact Hne. destruct (rep_only _ _ _ R k n0 Hk0) as [H|H].
+    + apply keys_plug_in in H. destruct H as [H|H]; [|right; left; exact H].
+      left. rewrite keys_of_eq in H. rewrite keys_of_eq, flat_map_app. simpl.
+      destruct H as [H|H]; [left; exact H | right; apply in_or_app; left; exact H].
+    + destruct (Hcov k H) as [H'|H']; [right; right; exact H'|].
+      left. rewrite keys_of_eq, flat_map_app. simpl. rewrite app_nil_r. right. apply in_or_app. right. exact H'.
+  - intros k Hk0. destruct (Hnew k Hk0) as [H1 H2]. destruct (Hpend k H1) as [H3 H4]. split; [|exact H4].
+    rewrite keys_of_eq, flat_map_app. simpl. rewrite app_nil_r. rewrite keys_of_eq in H3.
+    intros [H|H]; [apply H3; left; exact H|]. apply in_app_or in H.
+    destruct H as [H|H]; [apply H3; right; exact H | exact (H2 H)].
+  - apply w_link_rootlink.
+Qed.
+
+(* ---- deleting flat nodes of pending identifiers ---- *)
+Lemma rep_delete t f P D P' : Rep t f P ->
+  (forall d, In d D -> In d P) ->
+  (forall k, In k P -> In k D \/ In k P') ->
+  (forall k, In k P' -> In k P) ->
+  Rep t (del_all D f) P'.
+Proof.
+  intros [Rroot Rnd Rfnd Rrows Ronly Rpend Rrl] HD Hcov Hsub.
+  assert (Hfr : forall y, In y (keys_of t) -> fget y (flat (del_all D f)) = fget y (flat f)).
+  { intros y Hy. apply del_all_frame. intros Hd. exact (Rpend y (HD y Hd) Hy). }
+  constructor.
+  - exact Rroot.
+  - exact Rnd.
+  - apply del_all_nodup. exact Rfnd.
+  - intros r Hr. apply node_matches_same with (m := flat f).
+    + apply Rrows. exact Hr.
+    + apply Hfr. apply rows_keys. exact Hr.
+    + intros c Hc. apply Hfr. eapply rows_kids_keys; eassumption.
+  - intros k n Hg. apply del_all_Some in Hg; [|exact Rfnd]. destruct Hg as [Hd Hg].
+    destruct (Ronly k n Hg) as [H|H]; [left; exact H|].
+    destruct (Hcov k H) as [H'|H']; [contradiction | right; exact H'].
+  - intros k Hk. apply Rpend. apply Hsub. exact Hk.
+  - destruct Rrl as [n [Hg Hl]]. exists n. split.
+    + rewrite Hfr; [exact Hg|]. rewrite <- Rroot. apply tkey_in_keys.
+    + rewrite del_all_rootlink. exact Hl.
+Qed.
+
+(* ---- writing a fresh flat node that nothing links to ---- *)
+Lemma rep_add_orphan t f P x a : Rep t f P -> fget x (flat f) = None -> ~ In x (keys_of t) ->
+  Rep t (w_entity x a f) (x :: P).
+Proof.
+  intros [Rroot Rnd Rfnd Rrows Ronly Rpend Rrl] Hx Hnx.
+  assert (Hfr : forall y, In y (keys_of t) -> fget y (flat (w_entity x a f)) = fget y (flat f)).
+  { intros y Hy. apply w_entity_frame. intros ->. exact (Hnx Hy). }
+  constructor.
+  - exact Rroot.
+  - exact Rnd.
+  - apply w_entity_nodup. exact Rfnd.
+  - intros r Hr. apply node_matches_same with (m := flat f).
+    + apply Rrows. exact Hr.
+    + apply Hfr. apply rows_keys. exact Hr.
+    + intros c Hc. apply Hfr. eapply rows_kids_keys; eassumption.
+  - intros k n Hg. destruct (key_dec k x) as [->|Hne]; [right; left; reflexivity|].
+    rewrite w_entity_frame in Hg by exact Hne.
+    destruct (Ronly k n Hg) as [H|H]; [left; exact H | right; right; exact H].
+  - intros k [<-|Hk]; [exact Hnx | apply Rpend; exact Hk].
+  - destruct Rrl as [n [Hg Hl]]. exists n. split.
+    + rewrite Hfr; [exact Hg|]. rewrite <- Rroot. apply tkey_in_keys.
+    + rewrite w_entity_rootlink. exact Hl.
+Qed.
+
+(* ---- re-visiting stored entities rewrites nothing ---- *)
+Definition stored (m : flatmap) (t : tree) : Prop :=
+  forall r, In r (rows t) ->
+  exists n, fget (rkey r) m = Some n /\ forall c, In c (rkids r) -> exists ad, lget c (flinks n) = Some ad.
+
+Lemma node_matches_stored m t : (forall r, In r (rows t) -> node_matches m r) -> stored m t.
+Proof.
+  intros H r Hr. destruct (H r Hr) as [n [Hg [_ [_ [Hk _]]]]]. exists n. split; [exact Hg|].
+  intros c Hc. apply lget_In_Some. apply Hk. exact Hc.
+Qed.
+
+Lemma save_kids_fix k l f : (forall c, In c l -> save_tree k c f = f) -> save_kids k l f = f.
+Proof.
+  induction l as [|c r IH]; intros H; [reflexivity|].
+  unfold save_kids in *. simpl. rewrite (H c (or_introl eq_refl)). apply IH.
+  intros c' Hc'. apply H. right. exact Hc'.
+Qed.
+
+Lemma save_tree_stored t : forall p f, stored (flat f) t -> save_tree p t f = w_link p (tkey t) f.
+Proof.
+  induction t as [k a l IH] using tree_ind'. intros p f Hs. rewrite save_tree_eq. simpl.
+  destruct (Hs (k, a, map tkey l)) as [n [Hg Hk]]; [rewrite rows_eq; left; reflexivity|].
+  unfold rkey, rkids in Hg, Hk. simpl in Hg, Hk.
+  rewrite (w_entity_old k a f n Hg). rewrite save_kids_fix; [reflexivity|].
+  intros c Hc. rewrite Forall_forall in IH. rewrite (IH c Hc).
+  - destruct (Hk (tkey c)) as [ad Had]; [apply in_map; exact Hc|].
+    destruct (Hs (tkey c, tattrs c, map tkey (tkids c))) as [cn [Hgc _]].
+    { rewrite rows_eq. right. apply in_flat_map. exists c. split; [exact Hc|].
+      destruct c as [k' a' l']. rewrite rows_eq. left. reflexivity. }
+    unfold rkey in Hgc. simpl in Hgc. eapply w_link_old; eassumption.
+  - intros r Hr. apply Hs. rewrite rows_eq. right. apply in_flat_map. exists c. split; assumption.
+Qed.
+
+Lemma save_kids_stored k a l f : stored (flat f) (Node k a l) -> save_kids k l (w_entity k a f) = f.
+Proof.
+  intros Hs.
+  destruct (Hs (k, a, map tkey l)) as [n [Hg Hk]]; [rewrite rows_eq; left; reflexivity|].
+  unfold rkey, rkids in Hg, Hk. simpl in Hg, Hk.
+  rewrite (w_entity_old k a f n Hg). apply save_kids_fix.
+  intros c Hc. rewrite save_tree_stored.
+  - destruct (Hk (tkey c)) as [ad Had]; [apply in_map; exact Hc|].
+    destruct (Hs (tkey c, tattrs c, map tkey (tkids c))) as [cn [Hgc _]].
+    { rewrite rows_eq. right. apply in_flat_map. exists c. split; [exact Hc|].
+      destruct c as [k' a' l']. rewrite rows_eq. left. reflexivity. }
+    unfold rkey in Hgc. simpl in Hgc. eapply w_link_old; eassumption.
+  - intros r Hr. apply Hs. rewrite rows_eq. right. apply in_flat_map. exists c. split; assumption.
+Qed.
+
+(* the save_entity that follows a move only adds the link under the new parent *)
+Lemma move_file C p a l1 te l2 f P q :
+  Rep (plug C (Node p a (l1 ++ te :: l2))) f P ->
+  save_tree q te (w_unlink p (tkey te) f) = w_link q (tkey te) (w_unlink p (tkey te) f).
+Proof.
+  intros R. destruct (rep_hole_facts _ _ _ _ R) as [Hnd [Hdis [Hrows Hpend]]].
+  pose proof (nodup_hole _ _ _ _ _ Hnd) as [Hte [Hpte Hd]].
+  apply save_tree_stored. intros r Hr.
+  destruct (node_matches_stored (flat f) te) with (r := r) as [n [Hg Hk]]; [|exact Hr|].
+  - intros r' Hr'. apply Hrows. apply in_rows_hole. right. right. left. exact Hr'.
+  - exists n. split; [|exact Hk]. rewrite w_unlink_frame; [exact Hg|].
+    intros E. apply Hpte. rewrite <- E. apply rows_keys. exact Hr.
+Qed.
+
+(* closing a file that represents the tree only sweeps the dead groups *)
+Lemma close_file_rep_file w P : Rep (wmem w) (wfile w) P -> (forall k, In k (wpend w) -> In k P) ->
+  wfile (close_file w) = sweep_file w KG /\ Rep (wmem w) (sweep_file w KG) P.
+Proof.
+  intros R Hin.
+  assert (R' : Rep (wmem w) (sweep_file w KG) P).
+  { unfold sweep_file. apply rep_delete with (P := P); [exact R | | intros k Hk; right; exact Hk | intros k Hk; exact Hk].
+    intros d Hd. apply filter_In in Hd. apply Hin. apply Hd. }
+  split; [|exact R'].
+  rewrite close_file_file. destruct (wmem w) as [k a l]. simpl. apply save_kids_stored.
+  apply node_matches_stored. exact (rep_rows _ _ _ R').
+Qed.
+
+Theorem step_frame_rep_gen : forall w o x P, Rep (wmem w) (wfile w) P -> (forall k, In k (wpend w) -> In k P) ->
+  ~ In x (footprint_rep w o) ->
+  fget x (flat (wfile (fst (step w o)))) = fget x (flat (wfile w)).
+Proof.
+  intros w o x P R Hin Hx.
+  destruct o as [k u p nm ar | e n | e b | e v | e q | e | e | k | ];
+    try (apply step_frame; exact Hx).
+  - (* Move *) unfold footprint_rep, parent_list in Hx. unfold step, do_move.
+    destruct (find e (wmem w)) as [te|] eqn:Fe; [|reflexivity].
+    destruct (find q (wmem w)); [|reflexivity].
+    destruct (parent_of e (wmem w)) as [p|] eqn:Pe; [|reflexivity].
+    destruct (negb (can_hold (fst q) (fst e)) || mem_key q (keys_of te) || key_eqb p q); [reflexivity|]. simpl.
+    destruct (child_ctx _ _ _ _ (rep_nodup _ _ _ R) Fe Pe) as [C [a [l1 [l2 [Ht Hk]]]]].
+    rewrite Ht in R. subst e. rewrite (move_file _ _ _ _ _ _ _ _ q R).
+    rewrite w_link_frame by (intros ->; apply Hx; right; left; reflexivity).
+    apply w_unlink_frame. intros ->. apply Hx. left. reflexivity.
+  - (* Reopen *) unfold step. rewrite reopen_file.
+    destruct (close_file_rep_file w P R Hin) as [-> _]. unfold sweep_file. apply del_all_frame. exact Hx.
+Qed.
+
+Theorem step_frame_rep : forall w o x, Rep (wmem w) (wfile w) (wpend w) -> ~ In x (footprint_rep w o) ->
+  fget x (flat (wfile (fst (step w o)))) = fget x (flat (wfile w)).
+Proof. intros w o x R. apply step_frame_rep_gen with (P := wpend w); [exact R | intros k Hk; exact Hk]. Qed.
+
+(* ======================================================================================================== *)
+(* Part B — the invariant is preserved by every operation                                                    *)
+(* ======================================================================================================== *)
+
+Lemma rep_init : Rep (wmem init) (wfile init) (wpend init).
+Proof.
+  constructor.
+  - reflexivity.
+  - simpl. constructor; [intros [] | constructor].
+  - simpl. constructor; [intros [] | constructor].
+  - intros r [<-|[]]. eexists. split; [reflexivity|]. simpl.
+    split; [reflexivity|]. split; [constructor|]. split; [intros c; split; intros []|]. intros c ad [].
+  - intros k n Hg. simpl in Hg. destruct (key_eqb k rootkey) eqn:E; [|discriminate].
+    apply key_eqb_eq in E. left. left. congruence.
+  - intros k [].
+  - eexists. split; reflexivity.
+Qed.
+
+Lemma rep_create t f P x a p sp : Rep t f P -> fget x (flat f) = None -> find p t = Some sp -> ~ In x (keys_of t) ->
+  Rep (upd p (add_kid (Node x a [])) t) (w_link p x (w_entity x a f)) (rm_key x P).
+Proof.
+  intros R Hx Hf Hnx.
+  pose proof (find_tkey _ _ _ Hf) as Hk. apply find_ctx in Hf. destruct Hf as [C ->].
+  destruct sp as [p' ap lp]. simpl in Hk. subst p'.
+  rewrite upd_hole by exact (rep_nodup _ _ _ R). simpl.
+  pose proof (rep_add_orphan _ _ _ x a R Hx Hnx) as R1.
+  change x with (tkey (Node x a [])) at 2.
+  apply rep_attach with (P0 := x :: P); try exact R1.
+  - simpl. constructor; [intros [] | constructor].
+  - intros r [<-|[]]. eexists. unfold rkey, rattrs, rkids. simpl. split; [apply w_entity_new; exact Hx|]. simpl.
+    split; [reflexivity|]. split; [constructor|]. split; [intros c; split; intros []|]. intros c ad [].
+  - intros k [<-|[]]. left. reflexivity.
+  - intros k [<-|Hk]; [right; left; reflexivity|].
+    destruct (key_dec k x) as [->|Hne]; [right; left; reflexivity | left; apply rm_key_In; split; assumption].
+  - intros k Hk. apply rm_key_In in Hk. destruct Hk as [Hk Hne]. split; [right; exact Hk|].
+    intros [E|[]]. congruence.
+Qed.
+
+Lemma rep_do_set w e g wr P :
+  (forall x a f n, fget x (flat f) = Some n -> fattrs n = a ->
+     exists n', fget x (flat (wr x (g a) f)) = Some n' /\ fattrs n' = g a /\ faddr n' = faddr n /\ flinks n' = flinks n) ->
+  (forall x a f y, y <> x -> fget y (flat (wr x a f)) = fget y (flat f)) ->
+  (forall x a f, NoDup (map fst (flat f)) -> NoDup (map fst (flat (wr x a f)))) ->
+  (forall x a f, rootlink (wr x a f) = rootlink f) ->
+  Rep (wmem w) (wfile w) P ->
+  Rep (wmem (fst (do_set w e g wr))) (wfile (fst (do_set w e g wr))) P /\ wpend (fst (do_set w e g wr)) = wpend w.
+Proof.
+  intros H1 H2 H3 H4 R. unfold do_set.
+  destruct (find e (wmem w)) as [te|] eqn:F; [|split; [exact R | reflexivity]].
+  destruct (key_eqb e rootkey); [split; [exact R | reflexivity]|]. simpl. split; [|reflexivity].
+  pose proof (find_tkey _ _ _ F) as Hk. apply find_ctx in F. destruct F as [C HC].
+  destruct te as [e' a l]. simpl in Hk. subst e'. rewrite HC in *.
+  rewrite upd_hole by exact (rep_nodup _ _ _ R). simpl.
+  destruct (rep_hole_facts _ _ _ _ R) as [_ [_ [Hrows _]]].
+  destruct (Hrows (e, a, map tkey l)) as [n [Hg [Ha _]]]; [rewrite rows_eq; left; reflexivity|].
+  unfold rkey, rattrs in Hg, Ha. simpl in Hg, Ha.
+  destruct (H1 e a (wfile w) n Hg Ha) as [n' [Hg' [Ha' [Had Hli]]]].
+  eapply rep_set; try eassumption.
+  - intros y Hy. apply H2. exact Hy.
+  - apply H3. exact (rep_flatnd _ _ _ R).
+  - apply H4.
+Qed.
+
+Lemma rep_remove_parent t f P e te p : Rep t f P -> find e t = Some te -> parent_of e t = Some p ->
+  Rep (prune e t) (w_unlink p e f) (P ++ keys_of te).
+Proof.
+  intros R Fe Pe. destruct (child_ctx _ _ _ _ (rep_nodup _ _ _ R) Fe Pe) as [C [a [l1 [l2 [-> Hk]]]]].
+  subst e. rewrite prune_hole by exact (rep_nodup _ _ _ R). apply rep_detach. exact R.
+Qed.
+
+Lemma rep_move t f P e te q sq p : Rep t f P -> find e t = Some te -> find q t = Some sq -> parent_of e t = Some p ->
+  ~ In q (keys_of te) ->
+  Rep (upd q (add_kid te) (prune e t)) (save_tree q te (w_unlink p e f)) P.
+Proof.
+  intros R Fe Fq Pe Hq.
+  destruct (child_ctx _ _ _ _ (rep_nodup _ _ _ R) Fe Pe) as [C [a [l1 [l2 [-> Hk]]]]]. subst e.
+  rewrite (move_file _ _ _ _ _ _ _ _ q R).
+  destruct (rep_hole_facts _ _ _ _ R) as [Hnd [Hdis [Hrows Hpend]]].
+  pose proof (nodup_hole _ _ _ _ _ Hnd) as [Hte [Hpte Hd]].
+  pose proof (rep_detach _ _ _ _ _ _ _ _ R) as R1.
+  rewrite prune_hole by exact (rep_nodup _ _ _ R).
+  assert (Hq1 : In q (keys_of (plug C (Node p a (l1 ++ l2))))).
+  { apply find_Some_in in Fq. apply keys_plug_in in Fq. apply keys_plug_in.
+    destruct Fq as [Fq|Fq]; [left | right; exact Fq].
+    apply in_keys_hole in Fq. apply in_keys_nohole. tauto. }
+  destruct (find_in _ _ Hq1) as [sq1 Fq1].
+  pose proof (find_tkey _ _ _ Fq1) as Hk1. apply find_ctx in Fq1. destruct Fq1 as [C2 HC2].
+  destruct sq1 as [q' aq lq]. simpl in Hk1. subst q'. rewrite HC2 in *.
+  rewrite upd_hole by exact (rep_nodup _ _ _ R1). simpl.
+  apply rep_attach with (P0 := P ++ keys_of te).
+  - exact R1.
+  - exact Hte.
+  - intros r Hr. apply node_matches_same with (m := flat f).
+    + apply Hrows. apply in_rows_hole. right. right. left. exact Hr.
+    + apply w_unlink_frame. intros E. apply Hpte. rewrite <- E. apply rows_keys. exact Hr.
+    + intros c Hc. apply w_unlink_frame. intros ->. apply Hpte. eapply rows_kids_keys; eassumption.
+  - intros k Hk. apply in_or_app. right. exact Hk.
+  - intros k Hk. apply in_app_or in Hk. exact Hk.
+  - intros k Hk. split; [apply in_or_app; left; exact Hk|].
+    intros Hk2. apply (proj1 (Hpend k Hk)). apply in_keys_hole. right. right. left. exact Hk2.
+Qed.
+
+(* ---- removal through the workspace, including the partial (raised) outcome ---- *)
+Definition prune_all (gone : list key) (t : tree) : tree := fold_left (fun m k => prune k m) gone t.
+
+Definition rm_ok (te : tree) : Prop := forall C p a l1 l2 f P,
+  Rep (plug C (Node p a (l1 ++ te :: l2))) f P ->
+  exists f' gone ok, rm_ws p te f = (f', ok) /\ rm_ws_done te = (gone, ok) /\
+     Rep (prune_all gone (plug C (Node p a (l1 ++ te :: l2)))) f' P /\
+     (ok = true -> gone = [tkey te]).
+
+Lemma rm_list_ok k ak C' P r : Forall rm_ok r -> forall f, Rep (plug C' (Node k ak r)) f P ->
+  exists f' gone ok, rm_list k r f = (f', ok) /\ done_list r = (gone, ok) /\
+     Rep (prune_all gone (plug C' (Node k ak r))) f' P /\
+     (ok = true -> prune_all gone (plug C' (Node k ak r)) = plug C' (Node k ak [])).
+Proof.
+  intros H. induction H as [|c r' Hc Hr IH]; intros f R.
+  - exists f, [], true. split; [reflexivity|]. split; [reflexivity|]. split; [exact R | reflexivity].
+  - destruct (Hc C' k ak [] r' f P R) as [f1 [g1 [ok1 [E1 [E2 [R1 G1]]]]]].
+    pose proof (prune_hole C' k ak [] c r' (rep_nodup _ _ _ R)) as Hp. simpl in Hp.
+    simpl. rewrite E1, E2. destruct ok1.
+    + rewrite (G1 eq_refl) in R1. unfold prune_all in R1. simpl in R1. rewrite Hp in R1.
+      destruct (IH f1 R1) as [f2 [g2 [ok2 [E3 [E4 [R2 G2]]]]]].
+      exists f2, (g1 ++ g2), ok2. rewrite E3, E4. rewrite (G1 eq_refl). unfold prune_all. simpl. rewrite Hp.
+      split; [reflexivity|]. split; [reflexivity|]. split; [exact R2 | exact G2].
+    + exists f1, g1, false. split; [reflexivity|]. split; [reflexivity|]. split; [exact R1 | discriminate].
+Qed.
+
+Lemma rm_ws_ok t : rm_ok t.
+Proof.
+  induction t as [k ak l IH] using tree_ind'. intros C p a l1 l2 f P R.
+  rewrite rm_ws_eq, rm_ws_done_eq. destruct (negb (adel ak)).
+  - exists f, [], false. split; [reflexivity|]. split; [reflexivity|]. split; [exact R | discriminate].
+  - destruct (rm_list_ok k ak ((p, a, l1, l2) :: C) P l IH f R) as [f1 [g [ok [E1 [E2 [R1 G]]]]]].
+    rewrite E1, E2. destruct ok; simpl.
+    + exists (w_delete k (w_unlink p k f1)), [k], true.
+      split; [reflexivity|]. split; [reflexivity|]. split; [|reflexivity].
+      rewrite (G eq_refl) in R1. simpl in R1.
+      pose proof (prune_hole C p a l1 (Node k ak l) l2 (rep_nodup _ _ _ R)) as Hp. simpl in Hp.
+      unfold prune_all. simpl. rewrite Hp.
+      pose proof (rep_detach _ _ _ _ _ _ _ _ R1) as R2. simpl in R2.
+      apply (rep_delete _ _ _ [k] P) in R2.
+      * exact R2.
+      * intros d [<-|[]]. apply in_or_app. right. left. reflexivity.
+      * intros k' Hk'. apply in_app_or in Hk'. destruct Hk' as [Hk'|Hk']; [right; exact Hk' | left; exact Hk'].
+      * intros k' Hk'. apply in_or_app. left. exact Hk'.
+    + exists f1, g, false. split; [reflexivity|]. split; [reflexivity|]. split; [exact R1 | discriminate].
+Qed.
+
+Lemma rep_remove_ws t f P e te p : Rep t f P -> find e t = Some te -> parent_of e t = Some p ->
+  Rep (prune_all (fst (rm_ws_done te)) t) (fst (rm_ws p te f)) P /\ snd (rm_ws p te f) = snd (rm_ws_done te).
+Proof.
+  intros R Fe Pe. destruct (child_ctx _ _ _ _ (rep_nodup _ _ _ R) Fe Pe) as [C [a [l1 [l2 [-> Hk]]]]].
+  destruct (rm_ws_ok te C p a l1 l2 f P R) as [f' [g [ok [E1 [E2 [R1 _]]]]]].
+  rewrite E1, E2. simpl. split; [exact R1 | reflexivity].
+Qed.
+
+(* ---- sweep ---- *)
+Lemma rep_sweep w k orph : Rep (wmem w) (wfile w) (wpend w ++ orph) ->
+  Rep (wmem w) (sweep_file w k) (filter (fun x => negb (kind_eqb (fst x) k)) (wpend w) ++ orph).
+Proof.
+  intros R. unfold sweep_file. eapply rep_delete; [exact R | | |].
+  - intros d Hd. apply filter_In in Hd. apply in_or_app. left. apply Hd.
+  - intros x Hx. apply in_app_or in Hx. destruct Hx as [Hx|Hx].
+    + destruct (kind_eqb (fst x) k) eqn:E.
+      * left. apply filter_In. split; assumption.
+      * right. apply in_or_app. left. apply filter_In. split; [exact Hx | rewrite E; reflexivity].
+    + right. apply in_or_app. right. exact Hx.
+  - intros x Hx. apply in_app_or in Hx. apply in_or_app. destruct Hx as [Hx|Hx]; [left | right; exact Hx].
+    apply filter_In in Hx. apply Hx.
+Qed.
+
+(* ======================================================================================================== *)
+(* The loader rebuilds the tree                                                                              *)
+(* ======================================================================================================== *)
+Definition load_step (fuel' : nat) (m : flatmap) (acc : list tree * list key) (l : key * N) : list tree * list key :=
+  let '(ks, sn) := acc in
+  if mem_key (fst l) sn then (ks, sn)
+  else match load fuel' m sn (fst l) with Some (t, sn') => (ks ++ [t], sn') | None => (ks, sn) end.
+
+Lemma load_eq fuel' m seen x :
+  load (S fuel') m seen x =
+  match fget x m with
+  | None => None
+  | Some n =>
+      let '(kids, seen') := fold_left (load_step fuel' m) (sort_links (flinks n)) ([], x :: seen) in
+      Some (Node x (fattrs n) kids, seen')
+  end.
+Proof. reflexivity. Qed.
+
+Lemma ins_link_perm x l : Permutation (ins_link x l) (x :: l).
+Proof.
+  induction l as [|y r IH]; simpl; [apply Permutation_refl|].
+  destruct (key_leb (fst x) (fst y)); [apply Permutation_refl|].
+  eapply Permutation_trans; [apply perm_skip; exact IH | apply perm_swap].
+Qed.
+
+Lemma sort_links_perm l : Permutation (sort_links l) l.
+Proof.
+  induction l as [|x r IH]; simpl; [constructor|].
+  eapply Permutation_trans; [apply ins_link_perm | apply perm_skip; exact IH].
+Qed.
+
+Lemma perm_flat_map {A B} (f : A -> list B) l l' : Permutation l l' -> Permutation (flat_map f l) (flat_map f l').
+Proof.
+  induction 1 as [| x l l' HP IH | x y l | l l' l'' HP1 IH1 HP2 IH2]; simpl.
+  - constructor.
+  - apply Permutation_app_head. exact IH.
+  - rewrite !app_assoc. apply Permutation_app_tail. apply Permutation_app_comm.
+  - eapply Permutation_trans; eassumption.
+Qed.
+
+Lemma forall2_in_l {A B} (R : A -> B -> Prop) l1 l2 : Forall2 R l1 l2 -> forall x, In x l1 -> exists y, In y l2 /\ R x y.
+Proof.
+  induction 1 as [|a b l1 l2 Hab HF IH]; intros x Hx; [destruct Hx|].
+  destruct Hx as [<-|Hx]; [exists b; split; [left; reflexivity | exact Hab]|].
+  destruct (IH x Hx) as [y [Hy Hr]]. exists y. split; [right; exact Hy | exact Hr].
+Qed.
+
+Lemma forall2_in_r {A B} (R : A -> B -> Prop) l1 l2 : Forall2 R l1 l2 -> forall y, In y l2 -> exists x, In x l1 /\ R x y.
+Proof.
+  induction 1 as [|a b l1 l2 Hab HF IH]; intros y Hy; [destruct Hy|].
+  destruct Hy as [<-|Hy]; [exists a; split; [left; reflexivity | exact Hab]|].
+  destruct (IH y Hy) as [x [Hx Hr]]. exists x. split; [right; exact Hx | exact Hr].
+Qed.
+
+Lemma forall2_length {A B} (R : A -> B -> Prop) l1 l2 : Forall2 R l1 l2 -> length l1 = length l2.
+Proof. induction 1; simpl; [reflexivity | f_equal; assumption]. Qed.
+
+Lemma nodup_kid l c : NoDup (flat_map keys_of l) -> In c l -> NoDup (keys_of c).
+Proof.
+  intros H Hc. apply in_split in Hc. destruct Hc as [l1 [l2 ->]]. rewrite flat_map_app in H. simpl in H.
+  apply nodup_app_iff in H. destruct H as [_ [H _]]. apply nodup_app_iff in H. apply H.
+Qed.
+
+Definition load_rel (t' c : tree) : Prop := tree_equiv t' c /\ Permutation (keys_of t') (keys_of c).
+
+Lemma forall2_flat_perm new lk : Forall2 load_rel new lk -> Permutation (flat_map keys_of new) (flat_map keys_of lk).
+Proof.
+  induction 1 as [|a b l1 l2 Hab HF IH]; simpl; [constructor|]. apply Permutation_app; [apply Hab | exact IH].
+Qed.
+
+Definition load_kid_ok (fuel' : nat) (m : flatmap) (c : tree) : Prop :=
+  forall seen, (forall y, In y (keys_of c) -> ~ In y seen) ->
+  exists s' seen', load fuel' m seen (tkey c) = Some (s', seen') /\ load_rel s' c /\
+     (forall y, In y seen' <-> In y seen \/ In y (keys_of c)).
+
+Lemma load_fold_ok fuel' m : forall lk L ks sn,
+  map fst L = map tkey lk -> Forall (load_kid_ok fuel' m) lk -> NoDup (flat_map keys_of lk) ->
+  (forall y, In y (flat_map keys_of lk) -> ~ In y sn) ->
+  exists new sn', fold_left (load_step fuel' m) L (ks, sn) = (ks ++ new, sn') /\ Forall2 load_rel new lk /\
+     (forall y, In y sn' <-> In y sn \/ In y (flat_map keys_of lk)).
+Proof.
+  induction lk as [|c lk IH]; intros L ks sn HL HF Hnd Hdis.
+  - destruct L; [|discriminate]. exists [], sn. simpl. rewrite app_nil_r.
+    split; [reflexivity|]. split; [constructor|]. intros y; tauto.
+  - destruct L as [|[c0 ad] L]; [discriminate|]. simpl in HL. inversion HL as [[Hc0 HL']].
+    inversion HF as [|? ? Hc HF']; subst.
+    simpl in Hnd. apply nodup_app_iff in Hnd. destruct Hnd as [N1 [N2 N3]].
+    assert (Hm : mem_key (tkey c) sn = false).
+    { apply mem_key_false. apply Hdis. simpl. apply in_or_app. left. apply tkey_in_keys. }
+    destruct (Hc sn) as [s' [sn1 [E1 [Rl Hs1]]]].
+    { intros y Hy. apply Hdis. simpl. apply in_or_app. left. exact Hy. }
+    destruct (IH L (ks ++ [s']) sn1 HL' HF' N2) as [new [sn' [E2 [F2 Hs2]]]].
+    { intros y Hy Hin. apply Hs1 in Hin. destruct Hin as [Hin|Hin].
+      - apply (Hdis y); [simpl; apply in_or_app; right; exact Hy | exact Hin].
+      - exact (N3 y Hin Hy). }
+    exists (s' :: new), sn'. split; [|split].
+    + change (fold_left (load_step fuel' m) ((tkey c, ad) :: L) (ks, sn))
+        with (fold_left (load_step fuel' m) L (load_step fuel' m (ks, sn) (tkey c, ad))).
+      assert (E : load_step fuel' m (ks, sn) (tkey c, ad) = (ks ++ [s'], sn1)).
+      { unfold load_step. simpl. rewrite Hm, E1. reflexivity. }
+      rewrite E, E2, <- app_assoc. reflexivity.
+    + constructor; assumption.
+    + intros y. rewrite Hs2, Hs1. simpl. rewrite in_app_iff. tauto.
+Qed.
+
+Definition load_ok (m : flatmap) (s : tree) : Prop := forall fuel seen,
+  height s <= fuel -> (forall r, In r (rows s) -> node_matches m r) -> NoDup (keys_of s) ->
+  (forall y, In y (keys_of s) -> ~ In y seen) ->
+  exists s' seen', load fuel m seen (tkey s) = Some (s', seen') /\ load_rel s' s /\
+     (forall y, In y seen' <-> In y seen \/ In y (keys_of s)).
+
+Lemma load_sub m s : load_ok m s.
+Proof.
+  induction s as [k a l IH] using tree_ind'. intros fuel seen Hh Hrows Hnd Hdis.
+  destruct fuel as [|fuel']; [simpl in Hh; lia|].
+  destruct (Hrows (k, a, map tkey l)) as [n [Hg [Ha [Hlnd [Hk Hl]]]]]; [rewrite rows_eq; left; reflexivity|].
+  unfold rkey, rattrs, rkids in Hg, Ha, Hlnd, Hk, Hl; simpl in Hg, Ha, Hlnd, Hk, Hl.
+  simpl tkey. rewrite load_eq, Hg.
+  pose proof (sort_links_perm (flinks n)) as Hsp.
+  assert (Hkl : ~ In k (flat_map keys_of l) /\ NoDup (flat_map keys_of l))
+    by (rewrite keys_of_eq in Hnd; inversion Hnd; split; assumption).
+  destruct Hkl as [Hkl Hndl].
+  assert (Hperm : Permutation (map fst (sort_links (flinks n))) (map tkey l)).
+  { apply NoDup_Permutation.
+    - eapply Permutation_NoDup; [apply Permutation_sym; apply Permutation_map; exact Hsp | exact Hlnd].
+    - apply nodup_tkeys. exact Hndl.
+    - intros c. rewrite <- Hk. split; apply Permutation_in; [|apply Permutation_sym]; apply Permutation_map; exact Hsp. }
+  apply Permutation_map_inv in Hperm. destruct Hperm as [lk [HL Hlk]].
+  pose proof (perm_flat_map keys_of _ _ Hlk) as Hfk.
+  destruct (load_fold_ok fuel' m lk (sort_links (flinks n)) [] (k :: seen) HL) as [new [sn' [E [F Hs]]]].
+  - apply Forall_forall. intros c Hc.
+    assert (Hcl : In c l) by (eapply Permutation_in; [apply Permutation_sym; exact Hlk | exact Hc]).
+    rewrite Forall_forall in IH. intros seen0 Hd0. apply (IH c Hcl fuel' seen0).
+    + pose proof (height_kid k a l c Hcl). lia.
+    + intros r Hr. apply Hrows. rewrite rows_eq. right. apply in_flat_map. exists c. split; assumption.
+    + eapply nodup_kid; eassumption.
+    + exact Hd0.
+  - eapply Permutation_NoDup; [exact Hfk | exact Hndl].
+  - intros y Hy [<-|Hin].
+    + apply Hkl. eapply Permutation_in; [apply Permutation_sym; exact Hfk | exact Hy].
+    + apply (Hdis y); [right; eapply Permutation_in; [apply Permutation_sym; exact Hfk | exact Hy] | exact Hin].
+  - rewrite E. simpl. exists (Node k (fattrs n) new), sn'. split; [reflexivity|]. split; [split|].
+    + rewrite Ha. constructor. constructor.
+      * rewrite (forall2_length _ _ _ F). symmetry. apply Permutation_length. exact Hlk.
+      * intros c1 H1. destruct (forall2_in_l _ _ _ F c1 H1) as [c2 [H2 [He _]]]. exists c2.
+        split; [eapply Permutation_in; [apply Permutation_sym; exact Hlk | exact H2] | exact He].
+      * intros c2 H2. assert (H2' : In c2 lk) by (eapply Permutation_in; eassumption).
+        destruct (forall2_in_r _ _ _ F c2 H2') as [c1 [H1 [He _]]]. exists c1. split; assumption.
+    + rewrite !keys_of_eq. apply perm_skip.
+      eapply Permutation_trans; [apply forall2_flat_perm; exact F | apply Permutation_sym; exact Hfk].
+    + intros y. rewrite Hs. simpl.
+      assert (Hyy : In y (flat_map keys_of lk) <-> In y (flat_map keys_of l)).
+      { split; apply Permutation_in; [apply Permutation_sym|]; exact Hfk. }
+      rewrite Hyy. tauto.
+Qed.
+
+Lemma rep_keys_in_flat t f P : Rep t f P -> incl (keys_of t) (map fst (flat f)).
+Proof.
+  intros R x Hx. rewrite keys_of_rows in Hx. apply in_map_iff in Hx. destruct Hx as [r [<- Hr]].
+  destruct (rep_rows _ _ _ R r Hr) as [n [Hg _]]. eapply fget_Some_In. exact Hg.
+Qed.
+
+Theorem load_rep_perm : forall t f pend, Rep t f pend ->
+  exists t' sn, load (S (length (flat f))) (flat f) [] rootkey = Some (t', sn)
+     /\ tree_equiv t' t /\ Permutation (keys_of t') (keys_of t).
+Proof.
+  intros t f P R. rewrite <- (rep_root _ _ _ R).
+  destruct (load_sub (flat f) t (S (length (flat f))) []) as [t' [sn [E [[He Hp] _]]]].
+  - pose proof (height_le_keys t). pose proof (NoDup_incl_length (rep_nodup _ _ _ R) (rep_keys_in_flat _ _ _ R)) as Hl.
+    rewrite map_length in Hl. lia.
+  - exact (rep_rows _ _ _ R).
+  - exact (rep_nodup _ _ _ R).
+  - intros y _ [].
+  - exists t', sn. split; [exact E|]. split; assumption.
+Qed.
+
+Theorem load_rep : forall t f pend, Rep t f pend ->
+  exists t' sn, load (S (length (flat f))) (flat f) [] rootkey = Some (t', sn)
+     /\ tree_equiv t' t /\ NoDup (keys_of t').
+Proof.
+  intros t f P R. destruct (load_rep_perm t f P R) as [t' [sn [E [He Hp]]]].
+  exists t', sn. split; [exact E|]. split; [exact He|].
+  eapply Permutation_NoDup; [apply Permutation_sym; exact Hp | exact (rep_nodup _ _ _ R)].
+Qed.
+
+(* ---- a tree equal up to the order of children is represented by the same file ---- *)
+Lemma tree_equiv_inv t' t : tree_equiv t' t ->
+  tkey t' = tkey t /\ tattrs t' = tattrs t /\ length (tkids t') = length (tkids t) /\
+  (forall c1, In c1 (tkids t') -> exists c2, In c2 (tkids t) /\ tree_equiv c1 c2) /\
+  (forall c2, In c2 (tkids t) -> exists c1, In c1 (tkids t') /\ tree_equiv c1 c2).
+Proof.
+  intros H. destruct H as [k a l1 l2 Hk]. destruct Hk as [l1 l2 Hlen H12 H21]. simpl.
+  split; [reflexivity|]. split; [reflexivity|]. split; [exact Hlen|]. split; assumption.
+Qed.
+
+Lemma rows_equiv t' : forall t, tree_equiv t' t -> forall r', In r' (rows t') ->
+  exists r, In r (rows t) /\ rkey r = rkey r' /\ rattrs r = rattrs r' /\ (forall c, In c (rkids r') <-> In c (rkids r)).
+Proof.
+  induction t' as [k a l1 IH] using tree_ind'. intros t He r' Hr'.
+  destruct (tree_equiv_inv _ _ He) as [Ek [Ea [_ [H12 H21]]]]. destruct t as [k2 a2 l2]. simpl in *. subst k2 a2.
+  destruct Hr' as [<-|Hr'].
+  - exists (k, a, map tkey l2). split; [left; reflexivity|]. split; [reflexivity|]. split; [reflexivity|].
+    unfold rkids. simpl. intros c. split; intros Hc; apply in_map_iff in Hc; destruct Hc as [c1 [<- Hc1]].
+    + destruct (H12 c1 Hc1) as [c2 [Hc2 He2]]. rewrite (proj1 (tree_equiv_inv _ _ He2)). apply in_map. exact Hc2.
+    + destruct (H21 c1 Hc1) as [c0 [Hc0 He0]]. rewrite <- (proj1 (tree_equiv_inv _ _ He0)). apply in_map. exact Hc0.
+  - apply in_flat_map in Hr'. destruct Hr' as [c1 [Hc1 Hr1]]. destruct (H12 c1 Hc1) as [c2 [Hc2 He2]].
+    rewrite Forall_forall in IH. destruct (IH c1 Hc1 c2 He2 r' Hr1) as [r [Hr Hrest]]. exists r. split; [|exact Hrest].
+    right. apply in_flat_map. exists c2. split; assumption.
+Qed.
+
+Lemma node_matches_ext m r r' : node_matches m r -> rkey r = rkey r' -> rattrs r = rattrs r' ->
+  (forall c, In c (rkids r') <-> In c (rkids r)) -> node_matches m r'.
+Proof.
+  intros [n [Hg [Ha [Hnd [Hk Hl]]]]] E1 E2 E3. exists n. rewrite <- E1, <- E2.
+  split; [exact Hg|]. split; [exact Ha|]. split; [exact Hnd|]. split; [|exact Hl].
+  intros c. rewrite Hk. symmetry. apply E3.
+Qed.
+
+Lemma rep_equiv t t' f P : Rep t f P -> tree_equiv t' t -> Permutation (keys_of t') (keys_of t) -> Rep t' f P.
+Proof.
+  intros [Rroot Rnd Rfnd Rrows Ronly Rpend Rrl] He Hp. constructor.
+  - rewrite (proj1 (tree_equiv_inv _ _ He)). exact Rroot.
+  - eapply Permutation_NoDup; [apply Permutation_sym; exact Hp | exact Rnd].
+  - exact Rfnd.
+  - intros r' Hr'. destruct (rows_equiv _ _ He r' Hr') as [r [Hr [E1 [E2 E3]]]].
+    eapply node_matches_ext; [apply Rrows; exact Hr | | |]; assumption.
+  - intros k n Hg. destruct (Ronly k n Hg) as [H|H]; [|right; exact H].
+    left. eapply Permutation_in; [apply Permutation_sym; exact Hp | exact H].
+  - intros k Hk Hin. apply (Rpend k Hk). eapply Permutation_in; eassumption.
+  - exact Rrl.
+Qed.
+
+Definition nonKG (x : key) : bool := negb (kind_eqb (fst x) KG).
+
+Lemma rep_reopen w orph : Rep (wmem w) (wfile w) (wpend w ++ orph) ->
+  snd (do_reopen w) = Done /\ tree_equiv (wmem (fst (do_reopen w))) (wmem w) /\
+  Rep (wmem (fst (do_reopen w))) (wfile (fst (do_reopen w)))
+      (wpend (fst (do_reopen w)) ++ (filter nonKG (wpend w) ++ orph)).
+Proof.
+  intros R.
+  destruct (close_file_rep_file w _ R) as [Hf _]. { intros k Hk; apply in_or_app; left; exact Hk. }
+  pose proof (rep_sweep w KG orph R) as R1.
+  destruct (load_rep_perm _ _ _ R1) as [t' [sn [E [He Hp]]]].
+  destruct (rep_rootln _ _ _ R1) as [n [Hg Hl]].
+  unfold do_reopen. cbv zeta. rewrite Hf, Hl, E. simpl.
+  split; [reflexivity|]. split; [exact He|]. eapply rep_equiv; eassumption.
+Qed.
+
+(* ---- one step ---- *)
+Definition next_orph (w : ws) (o : op) (orph : list key) : list key :=
+  match o with
+  | Create k u _ _ _ => rm_key (k, u) orph
+  | Reopen => filter nonKG (wpend w) ++ orph
+  | _ => orph
+  end.
+
+Lemma w_scalars_set g : (forall a, aarr (g a) = aarr a) ->
+  forall x a f n, fget x (flat f) = Some n -> fattrs n = a ->
+  exists n', fget x (flat (w_scalars x (g a) f)) = Some n' /\ fattrs n' = g a /\ faddr n' = faddr n /\ flinks n' = flinks n.
+Proof.
+  intros Hg x a f n Hn Ha. unfold w_scalars. rewrite Hn. simpl. eexists. split; [apply fget_fset_same|]. simpl.
+  split; [|split; reflexivity]. rewrite Ha, <- (Hg a). destruct (g a); reflexivity.
+Qed.
+
+Lemma w_array_set g : (forall a, aname (g a) = aname a /\ adel (g a) = adel a) ->
+  forall x a f n, fget x (flat f) = Some n -> fattrs n = a ->
+  exists n', fget x (flat (w_array x (g a) f)) = Some n' /\ fattrs n' = g a /\ faddr n' = faddr n /\ flinks n' = flinks n.
+Proof.
+  intros Hg x a f n Hn Ha. unfold w_array. rewrite Hn. simpl. eexists. split; [apply fget_fset_same|]. simpl.
+  split; [|split; reflexivity]. rewrite Ha. destruct (Hg a) as [<- <-]. destruct (g a); reflexivity.
+Qed.
+
+Theorem rep_step_gen : forall w o orph, Rep (wmem w) (wfile w) (wpend w ++ orph) -> fresh_op w o = true ->
+  Rep (wmem (fst (step w o))) (wfile (fst (step w o))) (wpend (fst (step w o)) ++ next_orph w o orph).
+Proof.
+  intros w o orph R Hf. destruct o as [k u p nm ar | e n | e b | e v | e q | e | e | k | ]; unfold step, next_orph.
+  - (* Create *) simpl in Hf. destruct (fget (k, u) (flat (wfile w))) eqn:Hx; [discriminate|].
+    assert (Rref : Rep (wmem w) (wfile w) (wpend w ++ rm_key (k, u) orph)).
+    { eapply rep_pend_change; [exact R | |].
+      - intros x Hx'. apply in_app_or in Hx'. apply in_or_app.
+        destruct Hx' as [H|H]; [left; exact H | right; apply rm_key_In in H; apply H].
+      - intros x n Hg Hin. apply in_app_or in Hin. apply in_or_app.
+        destruct Hin as [H|H]; [left; exact H | right; apply rm_key_In; split; [exact H | intros ->; congruence]]. }
+    unfold do_create. destruct (find p (wmem w)) as [sp|] eqn:Fp; [|exact Rref].
+    destruct (negb (can_hold (fst p) k) || mem_key (k, u) (keys_of (wmem w))) eqn:Ec; [exact Rref|].
+    simpl. apply orb_false_iff in Ec. destruct Ec as [_ Ec]. apply mem_key_false in Ec.
+    rewrite <- rm_key_app. eapply rep_create; eassumption.
+  - (* SetName *)
+    set (g := fun a => {| aname := n; adel := adel a; aarr := aarr a |}).
+    destruct (rep_do_set w e g w_scalars _
+                (w_scalars_set g (fun a => eq_refl)) w_scalars_frame w_scalars_nodup w_scalars_rootlink R) as [R' Hp].
+    rewrite Hp. exact R'.
+  - (* SetDel *)
+    set (g := fun a => {| aname := aname a; adel := b; aarr := aarr a |}).
+    destruct (rep_do_set w e g w_scalars _
+                (w_scalars_set g (fun a => eq_refl)) w_scalars_frame w_scalars_nodup w_scalars_rootlink R) as [R' Hp].
+    rewrite Hp. exact R'.
+  - (* SetArr *)
+    set (g := fun a => {| aname := aname a; adel := adel a; aarr := v |}).
+    destruct (rep_do_set w e g w_array _
+                (w_array_set g (fun a => conj eq_refl eq_refl)) w_array_frame w_array_nodup w_array_rootlink R) as [R' Hp].
+    rewrite Hp. exact R'.
+  - (* Move *) unfold do_move.
+    destruct (find e (wmem w)) as [te|] eqn:Fe; [|exact R].
+    destruct (find q (wmem w)) as [sq|] eqn:Fq; [|exact R].
+    destruct (parent_of e (wmem w)) as [p|] eqn:Pe; [|exact R].
+    destruct (negb (can_hold (fst q) (fst e)) || mem_key q (keys_of te) || key_eqb p q) eqn:Ec; [exact R|]. simpl.
+    apply orb_false_iff in Ec. destruct Ec as [Ec _]. apply orb_false_iff in Ec. destruct Ec as [_ Ec].
+    apply mem_key_false in Ec. eapply rep_move; eassumption.
+  - (* RemoveWs *) destruct (key_eqb e rootkey); [exact R|]. unfold do_remove_ws.
+    destruct (find e (wmem w)) as [te|] eqn:Fe; [|exact R].
+    destruct (parent_of e (wmem w)) as [p|] eqn:Pe; [|exact R].
+    destruct (rep_remove_ws _ _ _ _ _ _ R Fe Pe) as [R' _].
+    destruct (rm_ws p te (wfile w)) as [f' ok]. destruct (rm_ws_done te) as [gone b]. simpl in *. exact R'.
+  - (* RemoveParent *) destruct (key_eqb e rootkey); [exact R|]. unfold do_remove_parent.
+    destruct (find e (wmem w)) as [te|] eqn:Fe; [|exact R].
+    destruct (parent_of e (wmem w)) as [p|] eqn:Pe; [|exact R]. simpl.
+    eapply rep_pend_equiv; [eapply rep_remove_parent; eassumption|].
+    intros x. rewrite !in_app_iff. tauto.
+  - (* Sweep *) simpl. exact (rep_sweep w k orph R).
+  - (* Reopen *) apply rep_reopen. exact R.
+Qed.
+
+Lemma next_orph_nonKG w o orph : (forall k, In k orph -> nonKG k = true) ->
+  forall k, In k (next_orph w o orph) -> nonKG k = true.
+Proof.
+  intros H k Hk. destruct o; simpl in Hk; try (apply H; exact Hk).
+  - apply rm_key_In in Hk. apply H. apply Hk.
+  - apply in_app_or in Hk. destruct Hk as [Hk|Hk]; [apply filter_In in Hk; apply Hk | apply H; exact Hk].
+Qed.
+
+(* ---- histories ---- *)
+Fixpoint orph_run (ops : list op) (w : ws) (orph : list key) : list key :=
+  match ops with
+  | [] => orph
+  | o :: r => orph_run r (fst (step w o)) (next_orph w o orph)
+  end.
+
+Lemma run_cons o r w : run (o :: r) w = run r (fst (step w o)).
+Proof. reflexivity. Qed.
+
+Lemma rep_run_from ops : forall w orph, Rep (wmem w) (wfile w) (wpend w ++ orph) -> fresh_run ops w = true ->
+  Rep (wmem (run ops w)) (wfile (run ops w)) (wpend (run ops w) ++ orph_run ops w orph).
+Proof.
+  induction ops as [|o r IH]; intros w orph R Hf; [exact R|].
+  simpl in Hf. apply andb_true_iff in Hf. destruct Hf as [H1 H2]. rewrite run_cons. simpl orph_run.
+  apply IH; [apply rep_step_gen; assumption | exact H2].
+Qed.
+
+Lemma orph_run_nonKG ops : forall w orph, (forall k, In k orph -> nonKG k = true) ->
+  forall k, In k (orph_run ops w orph) -> nonKG k = true.
+Proof.
+  induction ops as [|o r IH]; intros w orph H; [exact H|]. simpl. apply IH. apply next_orph_nonKG. exact H.
+Qed.
+
+Lemma next_orph_clean w o : clean_op w o = true -> next_orph w o [] = [].
+Proof.
+  destruct o; simpl; intros H; try reflexivity. rewrite app_nil_r.
+  induction (wpend w) as [|x l IH]; simpl in *; [reflexivity|].
+  apply andb_true_iff in H. destruct H as [H1 H2]. unfold nonKG at 1. rewrite H1. simpl. apply IH. exact H2.
+Qed.
+
+Lemma orph_run_clean ops : forall w, clean_run ops w = true -> orph_run ops w [] = [].
+Proof.
+  induction ops as [|o r IH]; intros w H; [reflexivity|]. simpl in *.
+  apply andb_true_iff in H. destruct H as [H1 H2]. rewrite next_orph_clean by exact H1. apply IH. exact H2.
+Qed.
+
+Lemma rep_init_app : Rep (wmem init) (wfile init) (wpend init ++ []).
+Proof. exact rep_init. Qed.
+
+(* valid up to the orphans: pending dead identifiers plus object/data orphans forgotten by a re-open *)
+Theorem rep_run_orphans : forall ops, fresh_run ops init = true ->
+  let w := run ops init in
+  exists orph, (forall k, In k orph -> fst k <> KG) /\ Rep (wmem w) (wfile w) (wpend w ++ orph).
+Proof.
+  intros ops Hf w. exists (orph_run ops init []). split.
+  - intros k Hk E. pose proof (orph_run_nonKG ops init [] (fun k H => match H with end) k Hk) as Hn.
+    unfold nonKG in Hn. rewrite E in Hn. discriminate.
+  - apply rep_run_from; [exact rep_init_app | exact Hf].
+Qed.
+
+Theorem rep_step : forall w o, Rep (wmem w) (wfile w) (wpend w) -> fresh_op w o = true -> clean_op w o = true ->
+  Rep (wmem (fst (step w o))) (wfile (fst (step w o))) (wpend (fst (step w o))).
+Proof.
+  intros w o R Hf Hc. rewrite <- (app_nil_r (wpend w)) in R.
+  pose proof (rep_step_gen w o [] R Hf) as R'. rewrite next_orph_clean in R' by exact Hc.
+  rewrite app_nil_r in R'. exact R'.
+Qed.
+
+Theorem rep_run : forall ops, fresh_run ops init = true -> clean_run ops init = true ->
+  let w := run ops init in Rep (wmem w) (wfile w) (wpend w).
+Proof.
+  intros ops Hf Hc w. pose proof (rep_run_from ops init [] rep_init_app Hf) as R.
+  rewrite orph_run_clean in R by exact Hc. rewrite app_nil_r in R. exact R.
+Qed.
+
+(* C01 *)
+Theorem reopen_equiv : forall ops, fresh_run ops init = true ->
+  let w := run ops init in
+  snd (step w Reopen) = Done /\ tree_equiv (wmem (fst (step w Reopen))) (wmem w).
+Proof.
+  intros ops Hf w. pose proof (rep_run_from ops init [] rep_init_app Hf) as R.
+  destruct (rep_reopen _ _ R) as [H1 [H2 _]]. split; assumption.
+Qed.
+
+(* C02 *)
+Lemma close_valid_gen w orph : Rep (wmem w) (wfile w) (wpend w ++ orph) ->
+  (forall k, In k orph -> nonKG k = true) ->
+  (forall k n, fget k (flat (wfile w)) = Some n -> fst k <> KG -> In k (keys_of (wmem w))) ->
+  Valid (wfile (close_file w)).
+Proof.
+  intros R Hn H.
+  destruct (close_file_rep_file w _ R) as [Hf _]. { intros k Hk; apply in_or_app; left; exact Hk. }
+  pose proof (rep_sweep w KG orph R) as R1. rewrite Hf. exists (wmem w).
+  eapply rep_pend_change; [exact R1 | intros k [] |].
+  intros k n Hg Hin. exfalso.
+  assert (Hk : nonKG k = true).
+  { apply in_app_or in Hin. destruct Hin as [Hin|Hin]; [apply filter_In in Hin; apply Hin | apply Hn; exact Hin]. }
+  apply (rep_pend _ _ _ R1 k Hin). apply (H k n).
+  - unfold sweep_file in Hg. apply del_all_Some in Hg; [apply Hg | exact (rep_flatnd _ _ _ R)].
+  - intros E. unfold nonKG in Hk. rewrite E in Hk. discriminate.
+Qed.
+
+Theorem close_valid_nolinger : forall ops, fresh_run ops init = true ->
+  let w := run ops init in
+  (forall k n, fget k (flat (wfile w)) = Some n -> fst k <> KG -> In k (keys_of (wmem w))) ->
+  Valid (wfile (close_file w)).
+Proof.
+  intros ops Hf w H. pose proof (rep_run_from ops init [] rep_init_app Hf) as R.
+  eapply close_valid_gen; [exact R | | exact H].
+  apply orph_run_nonKG. intros k [].
+Qed.
+
+Theorem close_valid : forall ops, fresh_run ops init = true -> clean_run ops init = true ->
+  let w := run ops init in
+  (forall k, In k (wpend w) -> fst k = KG) ->
+  Valid (wfile (close_file w)).
+Proof.
+  intros ops Hf Hc w Hp. pose proof (rep_run ops Hf Hc) as R. cbv zeta in R. fold w in R.
+  assert (R0 : Rep (wmem w) (wfile w) (wpend w ++ [])) by (rewrite app_nil_r; exact R). clear R. rename R0 into R.
+  destruct (close_file_rep_file w _ R) as [Hfile _]. { intros k Hk; apply in_or_app; left; exact Hk. }
+  pose proof (rep_sweep w KG [] R) as R1. rewrite Hfile. exists (wmem w).
+  eapply rep_pend_change; [exact R1 | intros k [] |].
+  intros k n _ Hin. rewrite app_nil_r in Hin. apply filter_In in Hin. destruct Hin as [Hin Hk].
+  rewrite (Hp k Hin) in Hk. discriminate.
+Qed.
